@@ -139,13 +139,18 @@ def lean_audit(prop_id: str, tier: str) -> dict:
                 hits.append(f"{os.path.relpath(f, LEAN_DIR)}:{ln}: {line.strip()}")
     if hits:
         raise InfraError("forbidden tokens in Lean sources: " + "; ".join(hits))
-    prop_file = os.path.join(LEAN_DIR, "ExecModel", "Props", f"{prop_id}.lean")
-    if not os.path.exists(prop_file):
-        raise InfraError(f"no theorem file {prop_file}")
-    thms = theorems_of(prop_file)
+    import glob
+
+    prop_files = sorted(glob.glob(os.path.join(LEAN_DIR, "ExecModel", "Props", f"{prop_id}*.lean")))
+    if not prop_files:
+        raise InfraError(f"no theorem file Props/{prop_id}*.lean")
+    thms = []
+    for pf in prop_files:
+        thms += theorems_of(pf)
     if not thms:
-        raise InfraError(f"no theorems in {prop_file}")
-    audit_src = f"import ExecModel.Props.{prop_id}\n" + "".join(f"#print axioms {t}\n" for t in thms)
+        raise InfraError(f"no theorems in {prop_files}")
+    mods = ["ExecModel.Props." + os.path.basename(pf)[:-5] for pf in prop_files]
+    audit_src = "".join(f"import {m}\n" for m in mods) + "".join(f"#print axioms {t}\n" for t in thms)
     audit_dir = os.path.join(LEAN_DIR, ".lake", "audit")
     os.makedirs(audit_dir, exist_ok=True)
     audit_path = os.path.join(audit_dir, f"Audit_{prop_id}.lean")
@@ -169,7 +174,7 @@ def lean_audit(prop_id: str, tier: str) -> dict:
         raise InfraError(f"theorems depend on disallowed axioms: {badax}")
     res = {"theorems": thms, "axioms": axioms, "audit_s": round(time.time() - t0, 2)}
     if tier == "thorough":
-        mods = ["ExecModel.Basic", f"ExecModel.Props.{prop_id}"]
+        mods = ["ExecModel.Basic"] + mods
         r = subprocess.run(["lake", "env", "leanchecker"] + mods, cwd=LEAN_DIR, capture_output=True, text=True)
         res["leanchecker"] = {"modules": mods, "rc": r.returncode, "tail": (r.stdout + r.stderr)[-400:]}
         if r.returncode != 0:
